@@ -81,7 +81,7 @@ def drive(ctx, driver, mode="", cases=None, name=None, env=None, timeout=1500, v
     return events, res
 
 
-def agent_configs(ctx, prop, pairs=8):
+def agent_configs(ctx, prop, pairs=8, quick_cap=None, thorough_pairs=True):
     """Configurations of the agent for `prop` enumerated by TLC from spec/AgentConfig.tla (the default and everything
     within two neutral flags of it).  quick: the default, every single-flag deviation and a seeded sample of the
     two-flag ones; thorough: all.  Returns the environment for the driver."""
@@ -93,10 +93,14 @@ def agent_configs(ctx, prop, pairs=8):
     allc.sort(key=lambda c: (nd(c), json.dumps(c, sort_keys=True)))
     chosen = [c for c in allc if nd(c) <= 1]
     two = [c for c in allc if nd(c) == 2]
+    rnd = random.Random(ctx.seed * 7919 + 11)
     if ctx.tier == "thorough":
-        chosen += two
+        chosen += two if thorough_pairs else rnd.sample(two, min(4 * pairs, len(two)))
     else:
-        chosen += random.Random(ctx.seed * 7919 + 11).sample(two, min(pairs, len(two)))
+        chosen += rnd.sample(two, min(pairs, len(two)))
+        if quick_cap and len(chosen) > quick_cap + 1:
+            # expensive scenarios: the default and a seeded sample (another seed, another sample)
+            chosen = chosen[:1] + rnd.sample(chosen[1:], quick_cap)
     path = os.path.join(ctx.scratch, "agent_configs_%s.json" % prop)
     json.dump(chosen, open(path, "w"))
     ctx.extra["agent_configurations"] = {"enumerated_by_tlc": len(allc), "run": len(chosen)}
@@ -248,7 +252,7 @@ def proxy_env_phase(ctx, nquick, nthorough):
 
 def c01(ctx):
     ctx.rule = ("cases = bursts of concurrent clients (random sizes/latencies, seeded) through the real proxy+agent binaries; "
-                "distinct = distinct (scenario kind, number of concurrent clients); every recorded event is replayed by TLC through RelayTrace")
+                "distinct = distinct (scenario kind, number of concurrent clients); every recorded event is replayed by TLC through RelayTrace" + "; repeated under agent configurations enumerated by TLC from AgentConfig.tla (the default and configurations within two property-neutral flags of it: time-out, shim, banner, sessions, health, debug, grace, VM identity, identity flags)")
     ctx.assumptions = ["token projection: a response's token is what the harness backend echoed into status/headers/body/trailer",
                        "bounded: at most 64 concurrent clients per burst", "race-detector reports count only with both stacks in repository code"]
     thorough = ctx.tier == "thorough"
@@ -259,7 +263,7 @@ def c01(ctx):
         tlc_must_hold(ctx, "Relay", "Relay_MCbig.cfg", timeout=1500)
     build_relay_bins(ctx, race=True)
     go_build_harness(ctx)
-    events, _ = drive(ctx, "relay")
+    events, _ = drive(ctx, "relay", env=agent_configs(ctx, "C01", pairs=2, quick_cap=5, thorough_pairs=False))
     fails = relay_validate(ctx, events)
     if not fails:
         selftest(ctx, "RelayTrace", "RelayTrace.cfg", split_segments(events)[0], relay_mutations())
@@ -314,7 +318,7 @@ def c04(ctx):
     import random
     ctx.rule = ("cases = pending-list histories enumerated by TLC from AgentDedup's environment action (repeats, permutations, overlapping "
                 "subsets; <=3 replies of <=3 IDs over 3 IDs) replayed against the real agent binary through a scripted fake proxy, window-edge "
-                "scenarios with 999/1000 distinct IDs, and bursts of clients against the real proxy with foreign pollers; distinct = distinct history shapes")
+                "scenarios with 999/1000 distinct IDs, and bursts of clients against the real proxy with foreign pollers; distinct = distinct history shapes" + "; repeated under agent configurations enumerated by TLC from AgentConfig.tla (the default and configurations within two property-neutral flags of it: time-out, shim, banner, sessions, health, debug, grace, VM identity, identity flags)")
     ctx.assumptions = ["side condition of the property: at most 1000 distinct IDs outstanding (window scenarios beyond it are information only)",
                        "timing of fetch/upload relative to later list replies is varied by seeded delays, not enumerated on the real code (TLC enumerates it in the model)"]
     thorough = ctx.tier == "thorough"
@@ -635,7 +639,7 @@ def http_model(ctx):
 def c02(ctx):
     ctx.rule = ("cases = each-class sweep + seeded random combinations over method x path x query x host x 2 header slots x body classes "
                 "(class domains exported by TLC from HttpMsgGen), concretised with fresh random bytes, sent by a raw TCP client through the real "
-                "proxy+agent to a raw TCP backend; distinct = distinct class combinations")
+                "proxy+agent to a raw TCP backend; distinct = distinct class combinations" + "; repeated under agent configurations enumerated by TLC from AgentConfig.tla (the default and configurations within two property-neutral flags of it: time-out, shim, banner, sessions, health, debug, grace, VM identity, identity flags)")
     ctx.assumptions = ["judged in the agent's default handler chain", "X-Forwarded-For/Via/Forwarded are proxy-maintained and neither generated nor judged",
                        "Connection-nominated extension fields are not generated"]
     http_model(ctx)
@@ -668,7 +672,7 @@ def c02(ctx):
 def c03(ctx):
     ctx.rule = ("cases = each-class sweep + seeded random combinations over status x request method x 2 header slots x framing x body pieces x "
                 "declared/undeclared trailer counts x interim responses (domains exported by TLC), written byte-exactly by a scripted raw TCP backend "
-                "behind the real agent+proxy and read by a raw client; distinct = distinct class combinations")
+                "behind the real agent+proxy and read by a raw client; distinct = distinct class combinations" + "; repeated under agent configurations enumerated by TLC from AgentConfig.tla (the default and configurations within two property-neutral flags of it: time-out, shim, banner, sessions, health, debug, grace, VM identity, identity flags)")
     ctx.assumptions = ["header name case is not preserved by Go and not required", "Date and framing headers (Content-Length, Transfer-Encoding, Trailer) are not compared",
                        "interim responses must not disturb the final response; whether they are forwarded is not judged", "h2c backend: framing classes collapse to with/without Content-Length"]
     thorough = ctx.tier == "thorough"
@@ -788,7 +792,7 @@ def life_model(ctx, thorough):
 def c08(ctx):
     ctx.rule = ("cases = (a) the real ExponentialBackoffDuration for every retry count enumerated by TLC (0..70 and Big = 64, 65, 100, 2^32, 2^63-1, 2^63, "
                 "2^64-1), min/max over 1000 (quick) / 100000 (thorough) draws each, judged against Lo/Hi of AgentLife; (b) the real agent binary against a "
-                "fake proxy failing its list calls in scripted patterns; distinct = distinct retry counts and patterns")
+                "fake proxy failing its list calls in scripted patterns; distinct = distinct retry counts and patterns" + "; repeated under agent configurations enumerated by TLC from AgentConfig.tla (the default and configurations within two property-neutral flags of it: time-out, shim, banner, sessions, health, debug, grace, VM identity, identity flags)")
     ctx.assumptions = ["time between a failing list reply and the next list call is measured on the fake proxy's monotonic clock and must be >= Lo(n)",
                        "an upper bound on the observed gap is not enforced (scheduling noise); the logged delay itself is bounded by Hi(n)"]
     thorough = ctx.tier == "thorough"
